@@ -72,6 +72,20 @@ class Variable(FortranObj):
         for child in self.children:
             child.update_fqsn(self.FQSN)
 
+    def set_link_obj(self, link_obj) -> bool:
+        """Link to ``link_obj`` unless that would close a cycle of links, e.g.
+        ``a => a`` or ``a => b``, ``b => a``. The getters delegate to the linked
+        object and would otherwise recurse without bound."""
+        obj = link_obj
+        seen = []
+        while obj is not None:
+            if obj is self or any(obj is s for s in seen):
+                return False
+            seen.append(obj)
+            obj = getattr(obj, "link_obj", None)
+        self.link_obj = link_obj
+        return True
+
     def resolve_link(self, obj_tree):
         self.link_obj = None
         if self.link_name is None:
@@ -79,7 +93,7 @@ class Variable(FortranObj):
         if self.parent is not None:
             link_obj = find_in_scope(self.parent, self.link_name, obj_tree)
             if link_obj is not None:
-                self.link_obj = link_obj
+                self.set_link_obj(link_obj)
 
     def require_link(self):
         return self.link_name is not None
